@@ -17,10 +17,10 @@ BUDGET = {'quick': 200, 'thorough': 2400}
 NCASES = {'quick': 1400, 'thorough': 14000}
 RULE = ('cases: (grammar branch vector, header lines, byte injection, segmentation class). non-trivial: banner accepted or rejected with >= 1 header line or a non-default grammar '
         'branch; distinct by grammar-branch vector x segmentation class.')
-ASSUMPTIONS = ['minor versions are written without leading zeros; injected control bytes exclude those Python treats as whitespace']
+ASSUMPTIONS = ['minor versions are written without leading zeros; injected bytes go to the middle of the software token, the start of the comments or the end of the line']
 
 PRINT = ''.join(chr(c) for c in range(33, 127))
-FAMILIES = [('OpenSSH_%s', 'OpenSSH', ['7.4', '8.9p1', '9.6', '6.6.1p1', '10.0']), ('dropbear_%s', 'Dropbear SSH', ['2019.78', '0.53', '2022.83']),
+FAMILIES = [('OpenSSH_%s', 'OpenSSH', ['7.4', '8.9p1', '9.6', '6.6.1p1', '10.0', '9.6p10', '7.2p12', '9.9p2']), ('dropbear_%s', 'Dropbear SSH', ['2019.78', '0.53', '2022.83']),
             ('libssh-%s', 'libssh', ['0.9.6', '0.10.4']), ('libssh_%s', 'libssh', ['0.8.1']), ('tinyssh_%s', 'TinySSH', ['noversion', '20190101']),
             ('PuTTY_Release_%s', 'PuTTY', ['0.79', '0.64'])]
 BADBYTES = [bytes([b]) for b in list(range(1, 9)) + list(range(14, 28)) + [127]] + [b'\xff', b'\xfe', b'\x80', b'\xc3\xbc', b'\xe2\x82\xac', b'\xc0']
@@ -79,7 +79,10 @@ def cases(seed, tier):
             headers.insert(r2.randrange(len(headers) + 1), 'hex:' + 'SSH-\u0662.\u0660-motd gateway'.encode('utf-8').hex())
         inside = rng.random() < 0.3
         net = gen.rand_net(rng, inside_lines=inside)
-        yield {'proto': proto, 'software': software, 'sep': seps, 'comments': comments, 'inject': inject, 'headers': headers, 'eol': rng.choice(['\r\n', '\r\n', '\n']),
+        # where the injected bytes go: the middle of the software token, or the very end of the line (where a reader that trims
+        # "white space" before the line ending would drop a TAB / VT / FF without a trace), or the start of the comments
+        inject_at = gen.case_rng(seed, ID, i, 'inject-at').choice(['mid', 'mid', 'end', 'end', 'com'])
+        yield {'proto': proto, 'software': software, 'sep': seps, 'comments': comments, 'inject': inject, 'inject_at': inject_at, 'headers': headers, 'eol': rng.choice(['\r\n', '\r\n', '\n']),
                'fam': fam, 'inside': inside, 'net': net, 'opts': rng.choice([['-n'], ['-j'], ['-n', '-b'], ['-n', '-v']]), 'pseed': rng.getrandbits(32)}
 
 
@@ -89,13 +92,18 @@ def sample(case):
 
 def banner_bytes(case):
     sw = case['software'].encode('latin-1')
-    if case['inject']:
-        b = bytes.fromhex(case['inject'])
+    at = case.get('inject_at', 'mid') if case['inject'] else None
+    if at == 'com' and case['comments'] is None:
+        at = 'end'
+    b = bytes.fromhex(case['inject']) if case['inject'] else b''
+    if at == 'mid':
         pos = len(sw) // 2
         sw = sw[:pos] + b + sw[pos:]
     line = b'SSH-' + case['proto'].encode() + b'-' + sw
     if case['comments'] is not None:
-        line += case['sep'].encode() + case['comments'].encode('latin-1')
+        line += case['sep'].encode() + (b if at == 'com' else b'') + case['comments'].encode('latin-1')
+    if at == 'end':
+        line += b
     return line
 
 
@@ -193,6 +201,8 @@ def run_case(case, ctx):
         vnum = re.match(r'^[\d.]*\d', ver)
         if not sl.startswith(product + ' ') or (vnum and vnum.group(0) not in sl) or (not vnum and ver not in sl):
             out.append(viol('C16 product/version not extracted for a known family (%s)' % product, 'software line %r for %r' % (sl, case['software'])))
+        elif product == 'OpenSSH' and re.search(r'p\d+$', ver) and not re.match(r'^OpenSSH %s(?!\d)' % re.escape(ver), sl):
+            out.append(viol('C16 patch level of a known family shown differently from the software string (OpenSSH)', 'software line %r for %r' % (sl, case['software'])))
     elif case['fam'] and not case['inject'] and '-j' not in case['opts'] and obs.get('softline') is None:
         out.append(viol('C16 known product family not recognised (%s)' % case['fam'][0], ctx_txt))
     # round trip: feed the displayed banner back
